@@ -7,6 +7,7 @@ from vf.coqterm import Z, N, B, S, L, T, C, Rec, Nat, Opt
 
 ID = "C03"
 COQ_TARGETS = ["props/C03.vo", "model/ProxyCheck.vo", "lib/Pack.vo"]
+CHECK_TARGETS = ["model/ProxyCheck.vo", "lib/Pack.vo"]  # still evaluated when the proofs no longer build
 THEOREMS = [
     ("EG.props.C03", "C03_hop_by_hop_stripped"),
     ("EG.props.C03", "hop_table_complete"),
